@@ -182,6 +182,7 @@ SIGS = {
     "ensureInitialized": r"void ensureInitialized\(\) const",
     "acquireConnection": r"SessionId acquireConnection\(const ParsedUrl &parsedUrl\)",
     "resolveHostAddress": r"std::string resolveHostAddress\(const ParsedUrl &parsedUrl\) const",
+    "parseUrl": r"ParsedUrl parseUrl\(const std::string &url\) const",
     "start": r"void start\(\)",
     "enableTls": r"void enableTls\(const TlsConfig &config\)",
 }
@@ -485,10 +486,17 @@ def lean_block(name, blk, doc):
 # ------------------------------------------------------------------ floor
 def floor_facts(src):
     body = norm(body_of(src, "applyTls12Floor"))
-    m = re.fullmatch(r"const int minVer = configuredMin (<|<=|>|>=) (\w+) \? (\w+) : (\w+); ::SSL_CTX_set_min_proto_version\(ctx, minVer\);", body)
+    m = re.fullmatch(r"const int minVer = configuredMin (<|<=|>|>=) (\w+) \? (\w+) : (\w+); ::SSL_CTX_set_min_proto_version\(ctx, minVer\);"
+                     r"( if \(::SSL_CTX_get_min_proto_version\(ctx\) (<|<=) (\w+)\) \{ ::SSL_CTX_set_min_proto_version\(ctx, (\w+)\); \})?", body)
     if not m:
         raise TranslateError("applyTls12Floor: unexpected shape: %r" % body)
-    cmp_, k, a, b = m.groups()
+    cmp_, k, a, b = m.groups()[:4]
+    readback = None
+    if m.group(5):
+        # `if (get_min(ctx) < K1) set_min(ctx, K2)`: the effective minimum is read back and repaired
+        if m.group(6) != "<":
+            raise TranslateError("applyTls12Floor: unexpected read-back comparison %r" % m.group(6))
+        readback = (openssl_const(m.group(7)), openssl_const(m.group(8)))
     arms = []
     for x in (a, b):
         if x == k:
@@ -497,7 +505,7 @@ def floor_facts(src):
             arms.append(".arg")
         else:
             raise TranslateError("applyTls12Floor: unexpected arm %r" % x)
-    return {"<": ".lt", "<=": ".le", ">": ".gt", ">=": ".ge"}[cmp_], k, openssl_const(k), arms
+    return {"<": ".lt", "<=": ".le", ">": ".gt", ">=": ".ge"}[cmp_], k, openssl_const(k), arms, readback
 
 
 def openssl_const(name):
@@ -753,6 +761,80 @@ def http_client_facts(src):
     return cmap, host_src, https_req, http_req, m.group(1)
 
 
+def http_url_facts(src):
+    """What parseUrl accepts as a scheme and what isHttps()/the default port compare against."""
+    m = re.search(r"std::regex url\{\s*R\"\((.*?)\)\"\s*(?:,\s*([^}]*?))?\s*\};", src, re.S)
+    if not m:
+        raise TranslateError("HttpClient: url regex not found")
+    pattern, flags = m.group(1), norm(m.group(2) or "")
+    sm = re.match(r"\^\(([^()]*)\):", pattern)
+    if not sm:
+        raise TranslateError("HttpClient: url regex does not start with a scheme group: %r" % pattern)
+    scheme_group = sm.group(1)
+    if scheme_group != "https?":
+        raise TranslateError("HttpClient: scheme alternatives changed: %r" % scheme_group)
+    flagset = set(f.strip() for f in flags.split("|") if f.strip())
+    known = {"std::regex::ECMAScript", "std::regex::icase", "std::regex::optimize", "std::regex_constants::ECMAScript", "std::regex_constants::icase",
+             "std::regex_constants::optimize"}
+    if not flagset <= known:
+        raise TranslateError("HttpClient: unknown url regex flags %r" % flags)
+    icase = any(f.endswith("icase") for f in flagset)
+    m = re.search(r"bool isHttps\(\) const \{ return (.*?); \}", norm(src))
+    if not m:
+        raise TranslateError("ParsedUrl::isHttps not found")
+    e = m.group(1)
+    if e == 'scheme == "https"':
+        https_ci = False
+    elif re.fullmatch(r'(?:iora::)?(?:util::)?(?:iequals|equalsIgnoreCase|caseInsensitiveEquals)\(scheme, "https"\)', e):
+        https_ci = True
+    else:
+        raise TranslateError("ParsedUrl::isHttps: unrecognised comparison %r" % e)
+    pu = norm(raw_body(src, "parseUrl"))
+    if "parsed.scheme = match[1].str();" in pu:
+        normalised = False
+    elif re.search(r"parsed\.scheme = (?:toLower|util::toLower|iora::util::toLower)\(match\[1\]\.str\(\)\);", pu):
+        normalised = True
+    else:
+        raise TranslateError("HttpClient::parseUrl: how the scheme is stored is not recognised")
+    m = re.search(r'parsed\.port = \((parsed\.scheme == "https"|parsed\.isHttps\(\))\) \? (\d+) : (\d+);', pu)
+    if not m:
+        raise TranslateError("HttpClient::parseUrl: default-port selection not recognised")
+    port_ci = https_ci if m.group(1) == "parsed.isHttps()" else False
+    if 'throw std::invalid_argument("Invalid URL format' not in pu.replace("  ", " ") and "Invalid URL format" not in pu:
+        raise TranslateError("HttpClient::parseUrl: rejection of non-matching URLs not found")
+    # connection cache: key and reuse condition
+    acq = norm(body_of(src, "acquireConnection"))
+    if "const std::string hostPort = parsedUrl.getHostPort();" not in acq or "auto it = _connections.find(hostPort);" not in acq:
+        raise TranslateError("HttpClient::acquireConnection: cache lookup by getHostPort() not found")
+    if not re.search(r'std::string getHostPort\(\) const \{ return host \+ " " \+ std::to_string\(port\); \}', norm(blank_strings(src))):
+        raise TranslateError("ParsedUrl::getHostPort changed")
+    m = re.search(r"if \(it != _connections\.end\(\)\) \{ auto now = std::chrono::steady_clock::now\(\); if \((.*?)\) \{ it->second\.lastUsed = now; return it->second\.id; \}", acq)
+    if not m:
+        raise TranslateError("HttpClient::acquireConnection: reuse test not recognised")
+    conj = [c.strip() for c in split_top(m.group(1), "&&")]
+    fresh = "now - it->second.lastUsed < _config.connectionIdleTimeout"
+    if fresh not in conj:
+        raise TranslateError("HttpClient::acquireConnection: idle test missing from the reuse condition")
+    rest = [c for c in conj if c != fresh]
+    if rest == []:
+        checks_mode = False
+    elif rest == ["it->second.tls == tlsMode"]:
+        checks_mode = True
+        if not re.search(r"_connections\[hostPort\] = ConnectionEntry\{sessionId, std::chrono::steady_clock::now\(\), tlsMode\};", acq):
+            raise TranslateError("HttpClient::acquireConnection: the published cache entry does not record the TLS mode")
+        if not re.search(r"const TlsMode tlsMode = parsedUrl\.isHttps\(\) \? TlsMode::Client : TlsMode::None;", acq):
+            raise TranslateError("HttpClient::acquireConnection: tlsMode is not derived from isHttps()")
+    else:
+        raise TranslateError("HttpClient::acquireConnection: unrecognised reuse condition %r" % m.group(1))
+    return {"icase": icase, "https_ci": https_ci, "normalised": normalised, "port_ci": port_ci or normalised, "https_port": int(m_port(pu)[0]), "http_port": int(m_port(pu)[1]),
+            "checks_mode": checks_mode}
+
+
+def m_port(pu):
+    m = re.search(r'\? (\d+) : (\d+);', pu)
+    return m.group(1), m.group(2)
+
+
 def http_server_facts(src):
     st = body_of(src, "start")
     nodes = parse_stmts(st)
@@ -780,7 +862,7 @@ def http_server_facts(src):
 
 
 # ------------------------------------------------------------------ inventory of every OpenSSL call of the engine
-CONFIG_CALLS = {"SSL_CTX_set_verify": {"initTls"}, "SSL_CTX_set_min_proto_version": {"applyTls12Floor"}, "SSL_CTX_load_verify_locations": {"initTls"},
+CONFIG_CALLS = {"SSL_CTX_set_verify": {"initTls"}, "SSL_CTX_set_min_proto_version": {"applyTls12Floor"}, "SSL_CTX_get_min_proto_version": {"applyTls12Floor"}, "SSL_CTX_load_verify_locations": {"initTls"},
                 "SSL_CTX_set_default_verify_paths": {"initTls"}, "SSL_set1_host": {"doConnect"}, "SSL_set_tlsext_host_name": {"doConnect"},
                 "SSL_new": {"doConnect", "onListener"}, "SSL_CTX_new": {"initTls"}}
 KNOWN_CALLS = set(CONFIG_CALLS) | {"SSL_CTX_free", "SSL_CTX_set_cipher_list", "SSL_CTX_use_certificate_file", "SSL_CTX_use_PrivateKey_file", "SSL_CTX_check_private_key",
@@ -831,12 +913,13 @@ def gen(repo):
     if fdef["enabled"] != "false" or fdef["verifyPeer"] != "false" or fdef["defaultMode"] != "TlsMode::None" or fdef["minVersion"] != "0":
         raise TranslateError("TlsConfig defaults changed: %r" % (fdef,))
     blocks = ctx_blocks(body_of(src, "initTls"))
-    cmp_, kname, kval, arms = floor_facts(src)
+    cmp_, kname, kval, arms, readback = floor_facts(src)
     c_ref, c_new, c_sni, c_s1h, c_fc = connect_site(src)
     l_ref, l_new = listen_site(src)
     sf = session_facts(src)
     inv = call_inventory(src)
     cmap, host_src, https_req, http_req, localhost_to = http_client_facts(hc)
+    uf = http_url_facts(hc)
     smap, s_on, s_off, req_ck, req_ca = http_server_facts(hs)
     tls12 = openssl_const("TLS1_2_VERSION")
 
@@ -844,7 +927,9 @@ def gen(repo):
     t += "import IoraModel.Model.TlsTypes\nnamespace Iora.Gen.TlsCalls\nopen Iora.Tls\n\n"
     t += "/-- `applyTls12Floor`: `minVer = configuredMin <cmp> %s ? <thenArm> : <elseArm>`; the constant's value is read from the installed OpenSSL headers -/\n" % kname
     t += "def floorCmp : Cmp := %s\ndef floorConst : Int := %d\ndef floorThen : FloorArm := %s\ndef floorElse : FloorArm := %s\n" % (cmp_, kval, arms[0], arms[1])
-    t += "/-- `TLS1_2_VERSION` of the installed OpenSSL -/\ndef tls12 : Int := %d\n\n" % tls12
+    t += "/-- `TLS1_2_VERSION` of the installed OpenSSL -/\ndef tls12 : Int := %d\n" % tls12
+    t += "/-- `if (SSL_CTX_get_min_proto_version(ctx) < a) SSL_CTX_set_min_proto_version(ctx, b)` after the set: `some (a, b)`; absent: `none` -/\n"
+    t += "def floorReadback : Option (Int × Int) := %s\n\n" % ("some (%d, %d)" % readback if readback else "none")
     t += lean_block("serverCtx", blocks["server"], "`initTls`, server block: creation guard, then every action with its path condition, in source order")
     t += "\n" + lean_block("clientCtx", blocks["client"], "`initTls`, client block")
     t += "\n/-- `doConnect`: early refusal; guard of the `SSL_new(_sslCli)` block; path conditions (inside that block) of SNI and of `SSL_set1_host(cr.host)` -/\n"
@@ -860,6 +945,14 @@ def gen(repo):
     t += "/-- `HttpClient::acquireConnection`: the string handed to `connectSync`, the mode for https / http URLs, what `localhost` resolves to -/\n"
     t += "def httpClientHost : HostSrc := %s\ndef httpClientHttpsReq : Mode := %s\ndef httpClientHttpReq : Mode := %s\ndef httpClientLocalhost : String := \"%s\"\n" % (
         host_src, https_req, http_req, localhost_to)
+    B = lambda b: "true" if b else "false"
+    t += "\n/-- `HttpClient::parseUrl` / `ParsedUrl::isHttps`: the url regex's scheme group is `https?`; is it matched case-insensitively (`std::regex::icase`); is the\n"
+    t += "stored scheme lower-cased; does `isHttps()` (and the default-port choice) compare case-insensitively; the two default ports -/\n"
+    t += "def urlRegexIcase : Bool := %s\ndef urlSchemeNormalised : Bool := %s\ndef isHttpsCaseInsensitive : Bool := %s\ndef defaultPortCaseInsensitive : Bool := %s\n" % (
+        B(uf["icase"]), B(uf["normalised"]), B(uf["https_ci"]), B(uf["port_ci"]))
+    t += "def isHttpsLiteral : String := \"https\"\ndef httpsDefaultPort : Nat := %d\ndef httpDefaultPort : Nat := %d\n" % (uf["https_port"], uf["http_port"])
+    t += "/-- `acquireConnection`: the cache is keyed by host:port; does the reuse test also require the entry's TLS mode to equal the request's -/\n"
+    t += "def cacheReuseChecksTlsMode : Bool := %s\n" % B(uf["checks_mode"])
     t += "\n" + lean_map("httpServerMap", smap, "`HttpServer::start`: where each field of `config.serverTls` comes from (only when `enableTls` was called)")
     t += "/-- listener mode with / without `enableTls`; `enableTls` preconditions -/\n"
     t += "def httpServerTlsReq : Mode := %s\ndef httpServerPlainReq : Mode := %s\ndef enableTlsRequiresCertAndKey : Bool := %s\ndef enableTlsRequiresCaForClientCert : Bool := %s\n" % (
